@@ -336,8 +336,12 @@ func init() {
 				if c.Tier == "thorough" {
 					p.Bounds = []int{0, 1, 2}
 					p.Shard = true
-				} else if nreq > 2 {
+				} else if nreq > 2 && !(len(cfg.threads) == 3 && cfg.faultAt < 0) {
 					p.Bounds = []int{0}
+					p.Shard = true
+				} else {
+					// incl. three writers without fault: a later-allocated write finishing while an earlier
+					// one is still in its storage transaction needs one preemption
 					p.Shard = true
 				}
 				return p
